@@ -483,4 +483,36 @@ theorem ainv_reachable {pl : Pid → Content} {s : State} (h : Reachable true pl
   | init => exact ainv_init pl
   | step a hr hn ih => exact ainv_next ih (inv_reachable (base_reachable hr)) hn
 
+/-- when nothing is in flight at a drop inside the callback, waiting for "the write in flight" is a no-op -/
+theorem next_false_eq_true {pl : Pid → Content} {s : State} {a : Act}
+    (h : dropsInCallback s a = true → s.inflight = []) : next false pl s a = next true pl s a := by
+  cases a with
+  | land n => rfl
+  | base a =>
+    simp only [next]
+    cases hb : FC.next pl s.base a with
+    | none => rfl
+    | some b =>
+      cases a with
+      | step p =>
+        simp only [FC.Act.pid]
+        cases hpc : s.base.pc p <;> simp
+      | crash p => simp
+      | fail p =>
+        simp only [FC.Act.pid]
+        cases hpc : s.base.pc p <;> try (simp; done)
+        have hfl := h (by simp [dropsInCallback, hpc, isWritingPC])
+        simp [hfl, settle]
+      | cancel p =>
+        simp only [FC.Act.pid]
+        cases hpc : s.base.pc p <;> try (simp; done)
+        have hfl := h (by simp [dropsInCallback, hpc, isWritingPC])
+        simp [hfl, settle]
+
+/-- every such history of the code as it is is a history of the join-on-drop system -/
+theorem reachableQD_true {pl : Pid → Content} {s : State} (h : ReachableQD pl s) : Reachable true pl s := by
+  induction h with
+  | init => exact Reachable.init
+  | step a _ hq hn ih => exact Reachable.step a ih (by rw [← next_false_eq_true hq]; exact hn)
+
 end FCA
